@@ -109,6 +109,37 @@ def check(case):
     return Result(nontrivial=nt, classes=cl, sample={'A': A, 'B': B}, key=[A, B])
 
 
+def check_real(case):
+    """a sample score of the repository that imports without errors: its default export and its extended export are fixed
+    points (the first sentence of the property quantifies over every such document, whatever wrote it)"""
+    from .. import realscores as RS
+    try:
+        d, errs = kp.load(RS.path(case['real']))
+    except Exception:  # noqa
+        return Result(classes=['real-score-not-importable'])
+    if errs:
+        return Result(classes=['real-score-with-import-errors'])
+    o1 = K.dumps(d)
+    d2 = _reimport(o1, 'kern')
+    o2 = K.dumps(d2)
+    if o2 != o1:
+        diff = [(x, y) for x, y in zip(o1.split('\n'), o2.split('\n')) if x != y][:3]
+        raise Bad('not-fixed-point', f'{case["real"]}: dumps(loads(dumps(d))) differs: {diff}', cells=_diff_cells(o1, o2))
+    k1 = K.dumps(d, encoding=kp.Encoding.eKern)
+    if re.search(r'@(#+|-+|n)·[xXiIjZyY]', k1) or re.search(r'·[^·\t ]*[<>?xy&]', k1):
+        # a note with an accidental whose first signifier is one of the eight characters the grammar also reads as an
+        # accidental-display suffix, or a signifier out of < > ? x y & (they combine with their neighbours: '(' '<' written
+        # without separator is the unit '(<'): the property's quantifier keeps those apart, only the plain leg applies
+        return Result(nontrivial=False, classes=['real-score', 'real-score-display-suffix-ambiguity'], sample={'file': case['real']}, evals=1)
+    d3 = _reimport(unheader(k1), 'ekern')
+    k2 = K.dumps(d3, encoding=kp.Encoding.eKern)
+    if k2 != k1:
+        diff = [(x, y) for x, y in zip(k1.split('\n'), k2.split('\n')) if x != y][:3]
+        raise Bad('ekern-not-fixed-point', f'{case["real"]}: extended export, separators removed, re-imported, re-exported: {diff}',
+                  cells=_diff_cells(K.strip_sep(k1), K.strip_sep(k2)))
+    return Result(nontrivial=o1.count('\n') > 20, classes=['real-score'], sample={'file': case['real'], 'lines': o1.count('\n')}, key=['real', case['real']], evals=2)
+
+
 _NONREST = set(G.SIG) - set(G.REST_SIG)
 
 
@@ -144,6 +175,11 @@ FINDINGS = {'KF-CHORDREST': f_chordrest}
 
 def run(ctx):
     n = 80 if ctx.quick else 2200
+    from .. import realscores as RS
+    fs = RS.files(max_bytes=25000 if ctx.quick else 60000)
+    # the repository's own sample scores: every shard takes its share (all of them in the thorough tier, a seed-dependent third in quick)
+    mine = [f for i, f in enumerate(fs) if i % ctx.nshards == ctx.shard and (not ctx.quick or (i // ctx.nshards + ctx.seed) % 3 == 0)]
+    ctx.check_all([{'real': f} for f in mine], check_real)
     ctx.run_hypothesis(doc_pairs(D.profile('full', chord_optional_dur=True, hidden_bars=True)), check, max_examples=n, label='full')
     ctx.run_hypothesis(doc_pairs(D.profile('chordrest', kern_weight=6)), check, max_examples=max(15, n // 6), salt=1,
                        label='chordrest')
@@ -154,4 +190,6 @@ def run(ctx):
 
 
 def replay(case):
+    if 'real' in case:
+        return check_real(case)
     return check(case)
